@@ -39,7 +39,7 @@ Content ==
     s8 |-> [type |-> "css",    kind |-> "dict",   text |-> "absent", table |-> "S0",  opt |-> "A", cache |-> "k1",   bem |-> FALSE, scope |-> "property"] ]
 Caches == {"k1", "k2"}
 MarkupAbbrs == {"ok", "wrap", "badparse", "badsnippet", "bem", "var"}          \* "var": a snippet that reads a variable of the configuration      \* "badsnippet" fails while snippets are resolved iff the table is MS1
-CssAbbrs == {"num", "tab", "plain", "raw", "badparse"}                     \* "num": a snippet supplies a number that takes the caller's unit; "raw": a raw snippet (section scope)
+CssAbbrs == {"num", "tab", "plain", "raw", "fnarg", "fnbare", "badparse"}                     \* "num": a snippet supplies a number that takes the caller's unit; "raw": a raw snippet (section scope); "fnarg" / "fnbare": a function keyword of a snippet with and without arguments
 
 VARIABLES userText, cache, live, pc, cur, seenText, results, ncalls
 vars == <<userText, cache, live, pc, cur, seenText, results, ncalls>>
